@@ -267,6 +267,20 @@ class ExecImpl:
             return "%s*" % self.cid_of(n[0])
         return node_s(self.cid_of(n[0]), n[1])
 
+    @staticmethod
+    def _held(c, args):
+        """(value,) when the element of cells `c` denoted by the positional arguments holds a value, else None"""
+        data = c._impl.data
+        if args in data:
+            return (data[args],)
+        try:
+            b = c._impl.formula.signature.bind(*args)
+            b.apply_defaults()
+            key = tuple(b.arguments.values())
+        except TypeError:
+            return None
+        return (data[key],) if key in data else None
+
     # ---- ops
     def apply(self, op):
         kind = op[0]
@@ -289,7 +303,17 @@ class ExecImpl:
                     c = self.cells[int(op[1])]
                     eq = op.index("=")
                     args = tuple(parse_val(a) for a in op[2:eq])
+                    held = self._held(c, args)
+                    if op[eq + 1] == "same":
+                        # "the value the element holds now" (generated histories cannot know it): made concrete HERE,
+                        # in place, so that the model driver, every later run of the history and the replay file see
+                        # an ordinary assignment
+                        op[eq + 1] = val_s(held[0]) if held and (held[0] is None or type(held[0]) is int) else "3"
                     v = parse_val(op[eq + 1])
+                    if held and type(held[0]) is type(v) and held[0] == v:
+                        # assigning an element the value it holds is `cells[k] = cells[k]`: the very object (CPython
+                        # shares only small ints, so a parsed token would be an equal but distinct object otherwise)
+                        v = held[0]
                     # the assignment is made for real, also with arguments that do not fit the signature: that
                     # modelx refuses it (TypeError from its own binding of the arguments) before changing
                     # anything is an observation, not something the harness may answer in its place
